@@ -1047,6 +1047,18 @@ func serving(c *an.Ctx, wr *watchRoles, rule string) {
 			addDonePairing(c, rule, k)
 		}
 	}
+	// the watcher serves until it is closed from outside: nothing that runs under Watcher.Run (the event loop,
+	// the handlers, the initial run) closes the watcher itself — whatever a run of the task ended with
+	nSelfClose := 0
+	for _, fn := range sortedFns(wr.scopeRun) {
+		for _, ci := range an.CallsIn(fn, "(*internal/watch.Watcher).Close") {
+			nSelfClose++
+			c.Bad(rule, an.Short(fn)+":self-close", ci.Pos(), "%s, which runs under Watcher.Run, closes the watcher: an outcome of one run of the task (a failure, a timeout, a cancelled context) ends the serving of all later events", an.Short(fn))
+		}
+	}
+	if nSelfClose == 0 {
+		c.OK(rule, an.Short(run)+":no-self-close", run.Pos(), "nothing under Watcher.Run closes the watcher")
+	}
 	if wr.evLoop != nil && loopFn != nil {
 		// nothing the event loop does on its own goroutine can block for ever: a semaphore or queue it
 		// waits on must be released on every path of whoever holds it
